@@ -54,7 +54,8 @@ class Case:
 
 @dataclass
 class Trace:
-    events: List[str] = field(default_factory=list)   # raw event lines
+    events: List[str] = field(default_factory=list)   # event lines (canonical: see canon_event)
+    raw_events: List[str] = field(default_factory=list)   # implementation only: the lines as the harness logged them
     result: str = ''                                  # the R line
     tree: List[str] = field(default_factory=list)     # TREE / T lines (C12)
     leaf_sound: str = ''                              # model only: side condition of C12_tree evaluated on this trace
@@ -66,7 +67,23 @@ def hexs(b: bytes) -> str:
     return b.hex() if b else '-'
 
 
-def parse_traces(text: str) -> Dict[str, Trace]:
+_MARKED = ('E', 'X', 'st', 'su', 'fa', 'uw', 'ra', 'ap', 'a0')
+
+
+def canon_event(line: str) -> str:
+    """Implementation side: the harness's second control family marks the tag of every line it logs (`st2 …`).
+    The model records the control family of `E` (the control the rule was invoked through) and of `st` (the control
+    whose hooks run for the invocation) as a trailing field; the other lines carry no control."""
+    tag, _, rest = line.partition(' ')
+    k = 0
+    if tag.endswith('2') and tag[:-1] in _MARKED:
+        tag, k = tag[:-1], 2
+    if tag in ('E', 'st'):
+        return f"{tag} {rest} {k}"
+    return f"{tag} {rest}" if rest else tag
+
+
+def parse_traces(text: str, impl: bool = False) -> Dict[str, Trace]:
     out: Dict[str, Trace] = {}
     cur = None
     for line in text.splitlines():
@@ -87,6 +104,9 @@ def parse_traces(text: str) -> Dict[str, Trace]:
             cur.tree.append(line)
         elif line.startswith('LS '):
             cur.leaf_sound = line[3:].strip()
+        elif impl:
+            cur.raw_events.append(line)
+            cur.events.append(canon_event(line))
         else:
             cur.events.append(line)
     return out
@@ -121,7 +141,7 @@ def run_model(cases: List[Case], fuel: int = 3000, sem: bool = False, jobs: int 
             last = c.g
         cfg = c.cfg
         cur.append(f"C {c.cid} {cfg.root} {cfg.a} {cfg.m} {cfg.eol} {cfg.lazy} {cfg.unwind} "
-                   f"{c.init[0]} {c.init[1]} {c.init[2]} {cfg.fam} {hexs(c.data)}")
+                   f"{c.init[0]} {c.init[1]} {c.init[2]} {cfg.fam} {hexs(c.data)}" + (" 1" if cfg.mi else ""))
         if sem:
             cur.append(f"SEM {c.cid} {cfg.root} {cfg.eol} {hexs(c.data)}")
         ncur += 1
@@ -291,5 +311,5 @@ def run_impl(cases: List[Case], san: str = 'asan', per_tu: int = 8, jobs: int = 
             else:
                 if kind == 'crash':
                     res.crashes.extend(msg)
-                res.traces.update(parse_traces(out))
+                res.traces.update(parse_traces(out, impl=True))
     return res
